@@ -234,6 +234,20 @@ def _module(draw, ctx):
             conns = draw(st.permutations(conns))
             stmts.append({"k": "bb", "t": ti, "insts": [{"name": f"U{n_bb}", "conns": [list(c) for c in conns]}]})
             n_bb += 1
+    if tool and len(inputs) >= 2 and len(fresh) >= 3 and draw(st.booleans()):
+        # a sub-expression whose synthesised gate name (and its first uniquified form) are user nets
+        sym, nm = draw(st.sampled_from([("&", "and"), ("|", "or"), ("^", "xor"), ("~^", "xnor")]))
+        x, y = draw(st.permutations(inputs))[:2]
+        base = f"{nm}_{x}_{y}"
+        if base not in avail and base + "_0" not in avail and base not in fresh and base + "_0" not in fresh:
+            out = fresh.pop()
+            e = ["bin", draw(st.sampled_from(["|", "&", "^"])), ["bin", sym, ["id", x], ["id", y]], ["id", draw(st.sampled_from(inputs))]]
+            stmts.insert(0, {"k": "assign", "assigns": [{"lhs": out, "rhs": e}]})
+            stmts.append({"k": "gate", "t": draw(st.sampled_from(["buf", "not"])), "insts": [{"name": f"g{gi}", "out": base, "ins": [["id", x]]}]})
+            stmts.append({"k": "gate", "t": draw(st.sampled_from(["not", "buf"])), "insts": [{"name": f"g{gi + 1}", "out": base + "_0", "ins": [["id", y]]}]})
+            gi += 2
+            defined += [out, base, base + "_0"]
+            avail += [out, base, base + "_0"]
     if twins:
         # two expressions of the same shape whose operand names join to the same string
         for l1, l2 in twin_pairs:
